@@ -3,6 +3,7 @@ NC = 2
 NR = 3
 Limit = 2
 Mutant = 0
+BigC = 1
 INIT Init
 NEXT Next
 INVARIANT I_Type
